@@ -54,7 +54,11 @@ def c01(run: Any) -> list[Finding]:
             holders = sorted(w for w, store in run.own.items() if store.get(key) is True)
             in_shared = run.shared.get(key) is True
             produced_here = [p["worker"] for p in run.trace[: ev["idx"]] if p["kind"] == "start" and key in p["sets"] and p.get("status") in trav.SAVING]
-            if produced_here:
+            removed = [d for d in run.trace[: ev["idx"]] if d["kind"] == "door" and d["action"] == "unset" and any((r[0], r[1]) == key for r in d["requests"])]
+            incompat = any(n.is_flat() and len(n.incompatible_workers) > 0 for n in run.graph.nodes)
+            if removed:
+                cause = "removed by a cleanup earlier in this run although this dependant was still pending" + (" (a worker's restrictions exclude a selected test, which disables the postponement of cleanups)" if incompat else "")
+            elif produced_here:
                 statuses = sorted({p.get("status") for p in run.trace[: ev["idx"]] if p["kind"] == "start" and key in p["sets"] and p.get("status") in trav.SAVING})
                 cause = f"produced in this run by {'another worker' if ev['worker'] not in produced_here else 'this worker'} with status {'/'.join(statuses)} but that pool is not among the instructed sources"
             elif holders and not in_shared:
@@ -236,7 +240,9 @@ def c05(run: Any) -> list[Finding]:
                 out.append((f"C05 {sc} removes in use {state}", f"{ev['worker']} removed {state} while {[(s['worker'], _short(s['bridged'])) for s in running]} was running", {}))
             pending = [s for s in starts if s["idx"] > ev["idx"] and any((n["object"], n["state"]) == key for n in s["needs"]) and s["scope"] == ev.get("scope", s["scope"])]
             if pending:
-                out.append((f"C05 {sc} removes before dependant {state}", f"{ev['worker']} removed {state} before its dependant {_short(pending[0]['bridged'])} was started by {pending[0]['worker']}", {}))
+                incompat = any(n.is_flat() and len(n.incompatible_workers) > 0 for n in run.graph.nodes)
+                fp = "C05 removes before dependant: a worker's restrictions exclude a selected test, which disables the postponement of cleanups" if incompat else f"C05 {sc} removes before dependant {state}"
+                out.append((fp, f"{ev['worker']} removed {state} before its dependant {_short(pending[0]['bridged'])} was started by {pending[0]['worker']}", {}))
     return out
 
 
@@ -284,10 +290,25 @@ def c08(run: Any) -> list[Finding]:
                     if k.startswith("nets_") and p.get(f"{k}_{src}") != v:
                         out.append((f"C08 {sc} source access parameter {k}", f"{_short(ev['bridged'])} on {wid}: access parameter {k}_{src}={p.get(f'{k}_{src}')!r} differs from the source worker's {v!r}", {}))
                         break
+        # the execution is handed to the worker's own environment
+        handle = ev.get("spawn_handle")
+        if isinstance(handle, tuple):
+            own = (worker.params["nets_shell_host"], str(worker.params["nets_shell_port"]))
+            if handle != own:
+                out.append((f"C08 {sc} foreign connection for execution", f"{_short(ev['bridged'])} of {wid} was spawned through the connection {handle}, the worker's own is {own}", {}))
+        elif handle is not None and handle != (worker.params["nets_host"] or "process"):
+            out.append((f"C08 {sc} foreign container for execution", f"{_short(ev['bridged'])} of {wid} was spawned in {handle}, the worker's own is {worker.params['nets_host']}", {}))
         # never on a worker whose restrictions exclude the test
         for flat in [n for n in node.setup_nodes if n.is_flat()]:
             if worker.net.long_suffix in flat.incompatible_workers:
                 out.append((f"C08 {sc} excluded worker", f"{wid} executed {ev['shortname']} although its restrictions exclude it", {}))
+    for ev in run.trace:
+        if ev["kind"] != "door" or ev.get("session") is None or ev["worker"] not in graph.workers:
+            continue
+        w = graph.workers[ev["worker"]]
+        own = (w.params["nets_shell_host"], str(w.params["nets_shell_port"]))
+        if ev["session"] != own and ev["session"] != (None, "None"):
+            out.append((f"C08 {sc} foreign connection for state control", f"state {ev['action']} of {ev['worker']} went through the connection {ev['session']}, the worker's own is {own}", {}))
     return out
 
 
